@@ -49,12 +49,12 @@ def c02_nontrivial(c, ms):
 CONFIG = dict(
     modules=["SigModel.Props.C02"],
     theorems=["SigModel.Checksum." + t for t in [
-        "checksumOf_eq_stmt", "validate_iff", "C02_source_facts", "toHex_injective", "roomAuth_eq",
+        "checksumOf_eq_stmt", "validate_iff", "C02_source_facts", "roomAuth_eq",
         "C02_accept_iff", "C02_auth_total", "C02_handle_200_iff", "C02_rejected_no_event", "C02_forbidden_is_403",
         "C02_valid_checksum_unique", "C02_tamper_rejected", "C02_tampered_request_403", "C02_tampered_request_403_search",
         "C02_boundary_shift", "C02_boundary_shift_auth", "C02_boundary_shift_not_403",
         "C02_outgoing", "C02_outgoing_unconfigured", "C02_outgoing_fresh", "C02_outgoing_other_secret",
-    ]] + ["SigModel.Hmac.toyMac_ideal"],
+    ]] + ["SigModel.Hmac.toyMac_ideal", "SigModel.Bytes.toHex_injective"],
     generated=["Checksum"],
     harness=dict(pkg="signaling", test="TestVerifC02", files=["zz_verif_hex_test.go"]),
     stats=c02_stats,
